@@ -1079,6 +1079,16 @@ class Models:
             return self.call_method(W, args[0], fn.__name__, tuple(args[1:]), kwargs)
         if isinstance(fn, (types.MethodWrapperType, types.MethodDescriptorType, types.WrapperDescriptorType)):
             raise Unsupported(f"native slot call {fn}")
+        import functools
+        if isinstance(fn, functools._lru_cache_wrapper):
+            # cached function: the cache lives in native state; run it natively when nothing symbolic is passed
+            if all_concrete(*args) and all_concrete(*kwargs.values()):
+                return native(fn, *args, **kwargs)
+            raise Unsupported("lru_cache'd function called with symbolic arguments")
+        if isinstance(fn, functools.partial):
+            return Redirect(fn.func, tuple(fn.args) + tuple(args), {**fn.keywords, **kwargs})
+        if callable(fn) and not isinstance(fn, (SStr, SChar, SBool, SInt, SSet)):
+            raise Unsupported(f"call of unmodelled callable {type(fn).__name__}")
         pyraise(TypeError, f"'{model_type(fn).__name__}' object is not callable")
 
     @staticmethod
